@@ -14,8 +14,8 @@ from . import core, model
 from . import c15_common as C
 from .core import BITS
 
-EPS = {"float": Fr(1, 2 ** 23), "double": Fr(1, 2 ** 52)}
-DENORM = {"float": Fr(1, 2 ** 149), "double": Fr(1, 2 ** 1074)}
+EPS = {"float": Fr(1, 2 ** 23), "double": Fr(1, 2 ** 52), "long double": Fr(1, 2 ** 63)}
+DENORM = {"float": Fr(1, 2 ** 149), "double": Fr(1, 2 ** 1074), "long double": Fr(1, 2 ** 16445)}
 
 
 def pairs():
@@ -61,14 +61,14 @@ def outs_for(rep):
 
 def instances(quick):
     reps_q = ["int32_t", "double", "float"]
-    reps_t = ["int16_t", "uint8_t", "int32_t", "uint32_t", "int64_t", "double", "float"]
+    # quick: the three main reps on every pair plus one of the other eight, rotating over the pairs; thorough: all eleven
+    rot = ["int64_t", "int16_t", "uint8_t", "long double", "uint64_t", "int8_t", "uint16_t", "uint32_t"]
+    reps_t = reps_q + rot
     out = []
     for pi, pr in enumerate(pairs()):
         reps = list(reps_q if quick else reps_t)
-        if quick and pi % 4 == 0:
-            reps.append("int64_t")
-        if quick and pi % 4 == 1:
-            reps.append("int16_t")
+        if quick:
+            reps.append(rot[pi % len(rot)])
         for rep in reps:
             out.append({"pair": pr, "rep": rep, "outs": outs_for(rep)})
     return out
@@ -146,7 +146,7 @@ def probe_code(inst):
     pr = inst["pair"]
     mk = "au::make_quantity_point" if pr["point"] else "au::make_quantity"
     calls = "".join("(void)au::%s_%s(%s, q); (void)au::%s_%s<%s>(%s, q);" % (f, k, pr["slot"], f, k, o, pr["slot"])
-                    for f in ("floor", "ceil", "round") for k in ("in", "as") for o in inst["outs"][:1])
+                    for f in ("floor", "ceil", "round") for k in ("in", "as") for o in inst["outs"])
     return "auto q = %s<%s>(static_cast<%s>(1)); %s" % (mk, pr["src"].cpp, inst["rep"], calls)
 
 
@@ -157,10 +157,12 @@ class Explorer:
         self.run, self.viol = run, viol
         self.insts = list(enumerate(instances(run.tier == "quick")))
         self.byid = dict(self.insts)
-        self.S, self.builds, self.dom, self.rejected = [], [], [], []
+        self.S, self.builds, self.dom, self.rejected, self.ld_recheck_band = [], [], [], [], 0
 
     def prepare(self, cfg):
-        # domain probes: every instance alone (the statement does not promise that a call compiles)
+        # domain probes: every instance alone.  The statement makes floor_/ceil_/round_{in,as}(unit, q) available for every
+        # same-dimension unit and every rep (the conversion happens in the std function's floating type with an explicit
+        # rep, so no conversion policy can refuse it): an instance that does not compile is a violation (loss of domain).
         ps = [core.Probe(iid, probe_code(inst), "accept") for iid, inst in self.insts]
         res, _ = core.run_probes(cfg, ps, os.path.join(self.run.wd, "rndp"), "rnd", '#include "c15_common.hh"\n', batch=8)
         for iid, inst in self.insts:
@@ -169,13 +171,19 @@ class Explorer:
             else:
                 C.guard(res[iid][1])
                 self.rejected.append("%s rep=%s: %s" % (inst["pair"]["name"], inst["rep"], res[iid][1][:160]))
-        if len(self.dom) < 0.8 * len(self.insts):
+                pr = inst["pair"]
+                self.viol("C15:round-rejected:%s:%s->%s:rep=%s" % ("point" if pr["point"] else "quantity", pr["src"].name,
+                                                                 pr["tgt"].name, inst["rep"]),
+                          "%s: `%s` does not compile: %s" % (cfg, probe_code(inst), res[iid][1][:300]),
+                          {"kind": "probe", "code": probe_code(inst), "expected": "accept", "config": [cfg.cxx, cfg.std],
+                           "preamble": '#include "c15_common.hh"\n'})
+        if len(self.dom) < 0.8 * len(self.insts) and not self.rejected:
             raise core.InfraError("vacuity guard: only %d of %d rounding instances compile: %s"
                                   % (len(self.dom), len(self.insts), self.rejected[:3]))
 
     def sweep(self, cfg):
         dom, byid, viol = self.dom, self.byid, self.viol
-        groups = C.split(dom, core.NCPU * 2)
+        groups = C.split(dom, max(core.NCPU * 2, (len(dom) + 39) // 40))
         r = C.build_run(self.run.wd, cfg, "rnd", [tu_text(g) for g in groups], C.SWEEP_FLAGS)
         self.builds.append(str(cfg))
         if len(r["S"]) != len(dom):
@@ -198,6 +206,11 @@ class Explorer:
         for v in r["V"]:
             inst = byid[v["inst"]]
             pr = inst["pair"]
+            if not confirm(inst, v) and work_type(inst["rep"]) == "long double":
+                # long double working type: the harness oracle (long double too) is no more precise than the library; the
+                # exact re-decision says the result is within the band
+                self.ld_recheck_band += 1
+                continue
             if not confirm(inst, v):
                 raise core.InfraError("long-double and exact oracles disagree on %s rep=%s: %s" % (pr["name"], inst["rep"], v))
             call = "%s%s(%s, %s<%s>(%s{%s}))" % (v["fn"], "<%s>" % v["out"] if v["out"] else "", pr["slot"],
@@ -224,6 +237,8 @@ class Explorer:
             "instances_rejected": self.rejected[:10], "sweep_builds": self.builds, "values": sum(s["values"] for s in S),
             "evaluations": sum(s["judged"] for s in S),
             "inequality_holds": sum(s["hold"] for s in S), "dont_care_band": sum(s["band"] for s in S),
+            "long_double_reports_inside_the_band_after_exact_recheck": self.ld_recheck_band,
+            "reps": sorted(set(i["rep"] for _, i in self.insts)),
             "skipped_exact_value_overflows_working_type": sum(s["skip_overflow"] for s in S),
             "skipped_result_outside_explicit_output_rep": sum(s["skip_out_range"] for s in S),
             "skipped_point_value_within_2pow16_of_working_type_max": sum(s["skip_headroom"] for s in S),
